@@ -175,6 +175,39 @@ pub fn stub_checked_div(d: Duration, rhs: u32) -> Option<Duration> {
     Some(r)
 }
 
+/// end-to-end on a SMALL domain with the REAL Duration::mul_f32 (no contract stub): clocks up to `max_s` seconds.
+/// Cross-checks the contract composition, and yields counterexamples that replay natively.
+pub fn clocks_real_small(max_s: u64, with_mtg: bool) {
+    let rem = any_ms_duration(max_s);
+    let inc = any_ms_duration(max_s);
+    let overhead: usize = kani::any();
+    let white: bool = kani::any();
+    let inc_given: bool = kani::any();
+    let mtg: u32 = kani::any();
+    kani::assume(mtg >= 1 && mtg <= 64);
+    kani::assume(overhead <= 1000);
+    let ovh = Duration::from_millis(overhead as u64);
+    kani::assume(ovh <= rem && ovh <= rem - ovh);
+    #[cfg(test)] println!("REPLAY-CASE {{\"remaining\":\"{:?}\",\"increment\":\"{:?}\",\"moves_to_go\":{},\"with_mtg\":{},\"overhead_ms\":{},\"white\":{}}}", rem, inc, mtg, with_mtg, overhead, white);
+    let game = pos::game_of(&two_kings(white));
+    let incd = if inc_given { Some(inc) } else { None };
+    let m = if with_mtg { Some(mtg) } else { None };
+    let clocks = if white {
+        Clocks { white_clock: Some(rem), black_clock: None, white_increment: incd, black_increment: None, moves_to_go: m }
+    } else {
+        Clocks { white_clock: None, black_clock: Some(rem), white_increment: None, black_increment: incd, moves_to_go: m }
+    };
+    let options = EngineOptions { hash_size: 1, threads: 1, move_overhead: overhead, syzygy_path: None };
+    let (ts, ctl) = TimeStrategy::new(&game, &TimeControl::Clocks(clocks), &options);
+    let (soft, hard) = ta::stops(&ts);
+    assert!(soft <= hard);
+    assert!(at_most_half(ns_of(hard), ns_of(rem - ovh)));
+    kani::cover!(rem.as_secs() > 10 && inc.as_secs() > 0 && overhead > 0);
+    std::mem::forget(ts);
+    std::mem::forget(ctl);
+    std::mem::forget(game);
+}
+
 /// sudden death / increment: no moves-to-go
 #[kani::proof]
 #[kani::unwind(9)]
